@@ -619,6 +619,26 @@ func parseClause(rest string, file string, line int) (*Clause, error) {
 	return c, nil
 }
 
+// splitTopLevel splits on commas that are not nested in parentheses or brackets.
+func splitTopLevel(s string) []string {
+	var out []string
+	depth, start := 0, 0
+	for i, r := range s {
+		switch r {
+		case '(', '[':
+			depth++
+		case ')', ']':
+			depth--
+		case ',':
+			if depth == 0 {
+				out = append(out, s[start:i])
+				start = i + 1
+			}
+		}
+	}
+	return append(out, s[start:])
+}
+
 func parseQVars(s string) ([]QVar, error) {
 	s = strings.TrimSpace(s)
 	if s == "" {
@@ -717,7 +737,7 @@ func ParseContractText(pkg, file, text string) (*ContractFile, error) {
 				return nil, fmt.Errorf("%s:%d: modifies outside func", file, ln)
 			}
 			cur.ModSet = true
-			for _, m := range strings.Split(rest, ",") {
+			for _, m := range splitTopLevel(rest) {
 				m = strings.TrimSpace(m)
 				if m != "" && m != "nothing" {
 					cur.Modifies = append(cur.Modifies, m)
